@@ -104,6 +104,7 @@ pub fn k4_movie() -> LFragMovie {
         mehd: Some(1),
         large_moof: false,
                 offsets_only: false,
+                fillers: 0,
     }
 }
 
@@ -138,7 +139,7 @@ pub fn k5() -> (Vec<u8>, Vec<u8>) {
 /// flags only, composition offsets only, all) and a `tfhd` with every optional field: one input per
 /// flag-gated shortcut of the fragment readers.
 pub fn k6() -> Vec<u8> {
-    let m = LFragMovie { movie_ts: 1000, tracks: vec![LFragTrack { id: 1, codec: Codec::Avc, timescale: 12800, trex_default_duration: 512 }], fragments: vec![], mehd: None, large_moof: false, offsets_only: false };
+    let m = LFragMovie { movie_ts: 1000, tracks: vec![LFragTrack { id: 1, codec: Codec::Avc, timescale: 12800, trex_default_duration: 512 }], fragments: vec![], mehd: None, large_moof: false, offsets_only: false, fillers: 0 };
     let mut all = init_nodes(&m);
     let mut trafs = vec![mfhd(1)];
     let shapes: [(bool, bool, bool, bool); 6] = [(false, false, false, false), (true, false, false, false), (false, true, false, false), (false, false, true, false), (false, false, false, true), (true, true, true, true)];
@@ -166,7 +167,7 @@ pub fn k6() -> Vec<u8> {
 /// samples are readable), a second track fragment of the same track in the same moof, and a second moof whose traf
 /// repeats tfdt.  "Several boxes of a kind where a reader may expect one."
 pub fn k7() -> Vec<u8> {
-    let m = LFragMovie { movie_ts: 1000, tracks: vec![LFragTrack { id: 1, codec: Codec::Avc, timescale: 12800, trex_default_duration: 512 }], fragments: vec![], mehd: None, large_moof: false, offsets_only: false };
+    let m = LFragMovie { movie_ts: 1000, tracks: vec![LFragTrack { id: 1, codec: Codec::Avc, timescale: 12800, trex_default_duration: 512 }], fragments: vec![], mehd: None, large_moof: false, offsets_only: false, fillers: 0 };
     let build = |moof_len: i32| {
         let mut all = init_nodes(&m);
         // (durations, flags, cts) per run; sizes always present
@@ -321,6 +322,7 @@ pub fn cut_fragmented_mixed() -> Vec<(String, Vec<u8>, Option<Vec<u8>>)> {
             mehd: None,
             large_moof: false,
             offsets_only: false,
+                fillers: 0,
         };
         let init = init_nodes(&m);
         let (media, _) = media_nodes(&m);
